@@ -4,7 +4,13 @@ package c20
 
 import (
 	"bytes"
+	"go/scanner"
+	"go/token"
 	"os"
+	"path/filepath"
+	"sort"
+	"strconv"
+	"strings"
 	"sync"
 	"sync/atomic"
 	"testing"
@@ -314,6 +320,37 @@ func TestVerifABEOddValues(t *testing.T) {
 		{"a": ""}, {"a": "", "b": "1"}, {"a": "", "b": ""}, {"a": " "}, {"a": "1 "}, {"a": " 1"}, {"a": "１"}, {"a": string(long)},
 		{"a": "1", "b": ""}, {"": "1"}, {"a": "1"}, {"a": "2", "b": "1"}, {"tier_2": ""}, {"tier_2": "free_plan"}, {},
 	}
+	// attribute LABELS the library itself uses internally (string literals of
+	// its sources that look like labels - the reserved label of the
+	// Boneh-Katz transform among them): a caller's attribute set may contain
+	// them like any other label
+	for _, l := range sourceLabels("abe/cpabe/tkn20", "abe/cpabe/tkn20/internal/tkn", "abe/cpabe/tkn20/internal/dsl") {
+		sets = append(sets, abepol.Assign{"a": "2", "b": "1", l: "x"}, abepol.Assign{"a": "1", l: ""})
+		lib.Count("odd:library-literal-as-attribute-label")
+	}
+	// many parenthesised groups side by side are not nesting
+	{
+		var sb strings.Builder
+		const groups = 10001
+		for i := 0; i < groups; i++ {
+			if i > 0 {
+				sb.WriteString(" or ")
+			}
+			sb.WriteString("(a:1)")
+		}
+		var flat tkn20.Policy
+		var ferr error
+		if pn := lib.Try("Policy.FromString:flat", nil, func() { ferr = flat.FromString(sb.String()) }); pn != nil || ferr != nil {
+			lib.Violation("C20:parse-error:Policy.FromString:many-groups-side-by-side", omon, lib.D("policy", "(a:1) or (a:1) or ... ("+strconv.Itoa(groups)+" groups, nesting depth 1)", "err", ferr))
+		} else {
+			lib.Count("odd:flat-policy-of-10001-groups")
+			var at tkn20.Attributes
+			at.FromMap(map[string]string{"a": "1"})
+			if !flat.Satisfaction(at) {
+				lib.Violation("C20:rejects-satisfied:Policy.Satisfaction:many-groups-side-by-side", omon, lib.D("groups", groups))
+			}
+		}
+	}
 	cts := make([][]byte, len(pols))
 	for i, p := range pols {
 		var pol tkn20.Policy
@@ -462,4 +499,48 @@ func toAttrs(a abepol.Assign) tkn20.Attributes {
 	var at tkn20.Attributes
 	at.FromMap(map[string]string(a))
 	return at
+}
+
+// sourceLabels: string literals of the non-test sources of the given packages
+// of the tree under test that have the shape of an attribute label (3..64
+// octets, no blanks, no format verbs, no colon).
+func sourceLabels(rels ...string) []string {
+	root := os.Getenv("VERIF_REPO")
+	if root == "" {
+		root = "/repo"
+	}
+	seen := map[string]bool{}
+	var out []string
+	for _, rel := range rels {
+		files, _ := filepath.Glob(filepath.Join(root, rel, "*.go"))
+		for _, f := range files {
+			if strings.HasSuffix(f, "_test.go") {
+				continue
+			}
+			src, err := os.ReadFile(f)
+			if err != nil {
+				continue
+			}
+			var sc scanner.Scanner
+			fs := token.NewFileSet()
+			sc.Init(fs.AddFile(f, fs.Base(), len(src)), src, nil, 0)
+			for {
+				_, tok, lit := sc.Scan()
+				if tok == token.EOF {
+					break
+				}
+				if tok != token.STRING {
+					continue
+				}
+				v, err := strconv.Unquote(lit)
+				if err != nil || len(v) < 3 || len(v) > 64 || strings.ContainsAny(v, " \t\n%:()/.") || seen[v] {
+					continue
+				}
+				seen[v] = true
+				out = append(out, v)
+			}
+		}
+	}
+	sort.Strings(out)
+	return out
 }
